@@ -76,10 +76,15 @@ impl<Key> AdmissionPolicy<Key>
         let keep_running = self.keep_running.clone();
         let access_frequency = self.access_frequency.clone();
 
+        #[cfg(cached_verif)] let verif_sink = crate::cache::verif::current();
         thread::spawn(move || {
+            #[cfg(cached_verif)] let _verif_guard = crate::cache::verif::adopt(verif_sink, "consumer");
+            #[cfg(cached_verif)] crate::cache::verif::point("R_Recv", 0);
             while let Ok(event) = receiver.recv() {
                 match event {
                     BufferEvent::Full(key_hashes) => {
+                        #[cfg(cached_verif)] crate::cache::verif::point("R_Apply", key_hashes.len() as i64);
+                        #[cfg(cached_verif)] crate::cache::verif::event("apply", &key_hashes.iter().map(|hash| *hash as i64).collect::<Vec<i64>>());
                         { access_frequency.write().increment_access(key_hashes); }
                     }
                     BufferEvent::Shutdown => {
@@ -93,6 +98,7 @@ impl<Key> AdmissionPolicy<Key>
                     drop(receiver);
                     break;
                 }
+                #[cfg(cached_verif)] crate::cache::verif::point("R_Recv", 0);
             }
         });
     }
@@ -105,6 +111,7 @@ impl<Key> AdmissionPolicy<Key>
                                         key_description: &KeyDescription<Key>,
                                         delete_hook: &DeleteHook) -> CommandStatus
         where DeleteHook: Fn(Key) {
+        #[cfg(cached_verif)] crate::cache::verif::point("A_Space", key_description.id as i64);
         if key_description.weight > self.cache_weight.get_max_weight() {
             debug!(
                 "Rejecting key with id {} and weight {}, given its weight is greater than the max cache weight {}",
@@ -113,6 +120,7 @@ impl<Key> AdmissionPolicy<Key>
             return CommandStatus::Rejected(RejectionReason::KeyWeightIsGreaterThanCacheWeight);
         }
         let (space_left, is_enough_space_available) = self.cache_weight.is_space_available_for(key_description.weight);
+        #[cfg(cached_verif)] crate::cache::verif::event("admit", &[key_description.id as i64, key_description.weight, space_left, is_enough_space_available as i64]);
         if is_enough_space_available {
             self.cache_weight.add(key_description);
             return CommandStatus::Accepted;
@@ -182,14 +190,17 @@ impl<Key> AdmissionPolicy<Key>
                                 key_description: &KeyDescription<Key>,
                                 delete_hook: &DeleteHook) -> CommandStatus
         where DeleteHook: Fn(Key) {
+        #[cfg(cached_verif)] crate::cache::verif::point("A_Sample", key_description.id as i64);
         let frequency_counter = |key_hash| self.estimate(key_hash);
 
         let incoming_key_access_frequency = self.estimate(key_description.hash);
         let mut space_available = space_left;
 
         let mut sample = self.cache_weight.sample(EVICTION_SAMPLE_SIZE, frequency_counter);
+        #[cfg(cached_verif)] crate::cache::verif::event("sample", &[&[key_description.id as i64, incoming_key_access_frequency as i64][..], &sample.verif_dump()[..]].concat());
         while space_available < key_description.weight {
             if let Some(sampled_key) = sample.min_frequency_key() {
+                #[cfg(cached_verif)] crate::cache::verif::event("victim", &[sampled_key.id as i64, sampled_key.estimated_frequency as i64, sampled_key.weight, incoming_key_access_frequency as i64, space_available]);
                 if incoming_key_access_frequency < sampled_key.estimated_frequency {
                     debug!(
                         "Rejecting key with id {} and estimated frequency {}, given its frequency is less than the sampled key with frequency {}",
@@ -203,7 +214,9 @@ impl<Key> AdmissionPolicy<Key>
 
                 space_available = fresh_space_available;
                 let _ = sample.maybe_fill_in();
+                #[cfg(cached_verif)] crate::cache::verif::event("refill", &[&[key_description.id as i64, fresh_space_available][..], &sample.verif_dump()[..]].concat());
             } else {
+                #[cfg(cached_verif)] crate::cache::verif::event("sample_empty", &[key_description.id as i64, space_available]);
                 let (_, is_enough_space_available) = self.cache_weight.is_space_available_for(key_description.weight);
                 if is_enough_space_available {
                     return CommandStatus::Accepted;
@@ -228,9 +241,11 @@ impl<Key> BufferConsumer for AdmissionPolicy<Key>
                 match response {
                     Ok(_) => {
                         if size > 0 {self.stats_counter.add_access(size as u64);}
+                        #[cfg(cached_verif)] crate::cache::verif::event("handover", &[size as i64, 1]);
                     },
                     Err(_) => {
                         if size > 0 {self.stats_counter.drop_access(size as u64);}
+                        #[cfg(cached_verif)] crate::cache::verif::event("handover", &[size as i64, 0]);
                     }
                 }
             },
@@ -239,8 +254,28 @@ impl<Key> BufferConsumer for AdmissionPolicy<Key>
                     warn!("Dropping key accesses of size {}", size as u64);
                     self.stats_counter.drop_access(size as u64);
                 }
+                #[cfg(cached_verif)] crate::cache::verif::event("handover", &[size as i64, 0]);
             }
         }
+    }
+}
+
+#[cfg(cached_verif)]
+impl<Key> AdmissionPolicy<Key>
+    where Key: Hash + Eq + Send + Sync + Clone + 'static, {
+    pub(crate) fn verif_cache_weight(&self) -> &CacheWeight<Key> { &self.cache_weight }
+
+    pub(crate) fn verif_access_channel_len(&self) -> usize { self.sender.len() }
+
+    pub(crate) fn verif_keep_running(&self) -> bool { self.keep_running.load(Ordering::Acquire) }
+
+    pub(crate) fn verif_lfu_increments(&self) -> Option<u64> {
+        self.access_frequency.try_read().map(|lfu| lfu.verif_total_increments())
+    }
+
+    /// Records `count` accesses of `key_hash` directly in the sketch (set-up of frequency profiles).
+    pub(crate) fn verif_record_access(&self, key_hash: KeyHash, count: usize) {
+        self.access_frequency.write().increment_access(vec![key_hash; count]);
     }
 }
 
